@@ -217,6 +217,25 @@ def main(argv=None):
             print(f"CHECK-ERROR property={prop} the symbolic executor and CPython disagree on {g3['disagree']} of {g3['cases']} cross-check inputs (engine fault, no verdict)")
             return 3
     results = run_all(targets, args.jobs)
+    # Modular verification uses a callee's contract, not its body, at every call site: a proof of this property therefore rests on
+    # the contracts of the functions it calls, which are claimed by OTHER properties' checks. They are verified here as well
+    # (transitively), so that this check alone notices a change in a callee that breaks the contract the property was proved with.
+    args.own_targets = len(targets)
+    if not args.only and not os.environ.get("PYVC_NO_CLOSURE"):
+        done = set(targets)
+        depth = int(os.environ.get("PYVC_CLOSURE_DEPTH", "1000" if thorough else "1"))  # quick tier: the direct callees' contracts
+        args.closure_depth = depth
+        while depth > 0:
+            depth -= 1
+            used = set()
+            for r_ in results:
+                used |= set(r_.get("contract_calls") or [])
+            more = [t for t, s in REG.contracts.items() if t not in done and not s.assumed and t.split("#")[0] in used]
+            if not more:
+                break
+            done |= set(more)
+            results += run_all(more, args.jobs)
+            targets = targets + more
     # G7 (thorough tier): the call-site summaries admit what the real code does on the cross-check corpus
     args.g7 = None
     if thorough and not os.environ.get("PYVC_SKIP_G7") and not args.only:
@@ -250,6 +269,20 @@ def main(argv=None):
                                   **(json.loads(p.stdout) if p.returncode == 0 else {"error": p.stderr[-400:]})})
         except Exception as e:
             args.standins.append({"function": "dpapi_ng._blob.DPAPINGBlob.unpack", "clause": "parser steps proportional to input size", "error": f"{type(e).__name__}: {e}"})
+
+    # bounded stand-ins beyond the precondition bounds of the proved contracts (DESIGN 10.6): the real functions against an
+    # oracle written from the standard, on a finite family outside the bounds; reported under bounded_standins, never as proved
+    if prop in ("C07", "C08") and not args.only and not os.environ.get("PYVC_SKIP_STANDIN"):
+        env = dict(os.environ, PYTHONPATH=os.path.join(args.repo, "src"), VERIF_TIER=args.tier, PYTHONDONTWRITEBYTECODE="1")
+        env.setdefault("VERIF_SEED", "1")
+        try:
+            p = subprocess.run(["/venv/bin/python", os.path.join(VERIF, "selftest", "beyond_bounds.py"), prop], env=env, capture_output=True, text=True, timeout=3600)
+            if p.returncode == 0:
+                args.standins.extend(json.loads(p.stdout))
+            else:
+                args.standins.append({"function": f"beyond-bounds family of {prop}", "clause": "beyond the proved bounds", "error": p.stderr[-400:]})
+        except Exception as e:
+            args.standins.append({"function": f"beyond-bounds family of {prop}", "clause": "beyond the proved bounds", "error": f"{type(e).__name__}: {e}"})
 
     from pyvc.report import decide
 
